@@ -80,6 +80,8 @@ type Client struct {
 	CrashAtWrite int   // crash at the actor's k-th commit (1-based); 0 = never
 	CrashAfter   bool  // crash after (true) or before (false) that commit
 	Dead         bool  // the actor's process has crashed: every call blocks forever
+	FailFrom     int   // with FailN > 0: the FailN CAS calls starting with the FailFrom-th (1-based) are rejected
+	FailN        int
 
 	Writes   int // commits so far
 	Attempts int // invocations of f so far
@@ -155,6 +157,11 @@ func (c *Client) CAS(ctx context.Context, key string, f func(in interface{}) (ou
 	}
 	if c.FailCAS {
 		s.Fault("kv-cas-error")
+		return ErrInjected
+	}
+	if c.FailN > 0 && c.casSeq >= c.FailFrom {
+		c.FailN--
+		s.Fault("kv-cas-rejected")
 		return ErrInjected
 	}
 	var lastIn, lastOut interface{}
